@@ -1,7 +1,7 @@
 """C15 - excludes protect, deletes are opt-in, dry runs touch nothing."""
 import os
 import vlib
-from . import common
+from . import common, nameclash
 
 TB = ["the matcher / planner level (what `matching an --exclude pattern` means, excluded_never_planned, no_delete_without_flag) is proved in Props/C19.v and tied by C19's exhaustive sweeps; this check is the run level",
       "modelled, not verified: Model/OneWay.v for `sync -r` (as C04), Model/Bisync.v for `bisync` (as C02); `excluded` is applied to a path as spelled by the tree that holds it - the theorems' premise covers every spelling that is a key of one of the trees (directory walks and listings produce one canonical spelling; the example excluded_needs_every_spelling shows the premise cannot be dropped in the model)",
@@ -43,7 +43,7 @@ def run(prop, tier, seed, replay):
     n1, n2 = res1["evals"], res2["evals"]
     res = merge(blank(), res1, "oneway.")
     res = merge(res, res2, "bisync.")
-    common.verdict(v, st, prop, res)
+    common.verdict(v, st, prop, res, nameclash.known_match)
     common.proof_coverage(v, st, prop, TB)
     v.coverage.update(dict(
         evaluations=res["evals"], distinct_nontrivial=res["distinct"], oneway_cases=n1, bisync_histories=n2,
